@@ -153,3 +153,14 @@ M("c13-continue-instead-of-return", "C13", "break", (S, "            find_entrie
 M("c13-find-ttl", "C13", "break", (S, "                service.create_find_entry(self.timings.FIND_TTL)", "                service.create_find_entry(self.timings.ANNOUNCE_TTL)"))
 M("c13-found-by-offer-match", "C13,C05", "break", (S, "        return any(service.matches_service(s) for s in self.found_services.entries())", "        return any(s.matches_offer(service.create_offer_entry()) for s in self.found_services.entries())"))
 M("c13-find-to-unicast", "C13", "break", (S, "            self.sd.send_sd(find_entries)  # 4.2.1: SWS_SD_00457", "            self.sd.send_sd(find_entries, remote=(\"192.0.2.1\", 30490))  # 4.2.1: SWS_SD_00457"))
+
+# ---------------------------------------------------------------- C14
+M("c14-subscribe-sent-synchronously", "C14", "break", (S, "        if self.alive:\n            asyncio.get_event_loop().call_soon(\n                self._send_start_subscribe, endpoint, [eventgroup]\n            )", "        if self.alive:\n            self._send_start_subscribe(endpoint, [eventgroup])"))
+M("c14-stop-without-removal-check", "C14", "break", (S, "            self.subscribeentries.remove((eventgroup, endpoint))\n        except ValueError:\n            return\n", "            self.subscribeentries.remove((eventgroup, endpoint))\n        except ValueError:\n            pass\n"))
+M("c14-subscribe-to-default-addr", "C14", "break", (S, "            [e.create_subscribe_entry(ttl=ttl) for e in entries], remote=remote", "            [e.create_subscribe_entry(ttl=ttl) for e in entries], remote=self.sd.default_addr"))
+M("c14-refresh-sleeps-ttl", "C14", "break", (S, "                await asyncio.sleep(self.timings.SUBSCRIBE_REFRESH_INTERVAL)", "                await asyncio.sleep(self.timings.SUBSCRIBE_TTL)"))
+M("c14-alive-not-cleared", "C14", "break", (S, "        self.alive = False\n\n        if self.task:  # pragma: nobranch", "        if self.task:  # pragma: nobranch"))
+M("c14-stopsubscribe-ttl-1", "C14", "break", (S, "        self._send_subscribe(0, remote, entries)", "        self._send_subscribe(1, remote, entries)"))
+M("c14-grouping-lost", "C14", "break", (S, "            endpoint_entries[endpoint].append(eventgroup)", "            endpoint_entries[self.sd.default_addr].append(eventgroup)"))
+M("c14-endpoint-protocol-fixed", "C14", "break", (C, "                address=naddr, l4proto=protocol, port=nport\n            )\n        elif", "                address=naddr, l4proto=someip.header.L4Protocols.UDP, port=nport\n            )\n        elif"))
+M("c14-two-endpoint-options", "C14", "break", (C, "            options_1=(endpoint_option,),", "            options_1=(endpoint_option, endpoint_option),"))
